@@ -1093,7 +1093,9 @@ impl ObjFiber {
             self.open_upvalues = {
                 let mut borrowed_upvalue = upvalue.borrow_mut();
                 borrowed_upvalue.close();
-                borrowed_upvalue.next
+                // A closed cell is no longer on the open list; keeping its link would keep the
+                // cells (and so the variables) that were open below it alive for as long as it lives.
+                borrowed_upvalue.next.take()
             };
         }
     }
